@@ -264,8 +264,15 @@ def compile_shard(vfile):
         if not m:
             return vfile, 99, "no verdict in output:\n" + out[-2000:], [], time.time() - t0
         body = m.group(1)
+        offset = 0
+        try:
+            ms = re.search(r"\(\* START (\d+) \*\)", open(os.path.join(COQ, vfile)).read())
+            if ms:
+                offset = int(ms.group(1))
+        except OSError:
+            pass
         for it in VERDICT_ITEM.finditer(body):
-            fails.append((int(it.group(1)), it.group(2) == "true", it.group(3) == "true"))
+            fails.append((offset + int(it.group(1)), it.group(2) == "true", it.group(3) == "true"))
         if not fails and re.sub(r"\s", "", body) != "[]":
             return vfile, 98, "verdict not understood:\n" + body[:2000], [], time.time() - t0
         mj = re.search(r"judged\s*=\s*(\d+)", out)
